@@ -150,10 +150,10 @@ func encodeValueCtx1(v reflect.Value, c *encCtx) (string, string) {
 		return N("ptr", X(t), es), fp
 	case reflect.Interface:
 		if v.IsNil() {
-			return N("iface", "nil"), "In"
+			return N("iface", X(v.Type().String()), "nil"), "In"
 		}
 		es, efp := encodeValueCtx(v.Elem(), c)
-		return N("iface", es), "I" + efp
+		return N("iface", X(v.Type().String()), es), "I" + efp
 	case reflect.Slice:
 		t := v.Type().String()
 		args := []string{X(t), X(v.Type().Elem().String()), B(v.IsNil())}
